@@ -70,7 +70,7 @@ def exA : Cls where
   scopes := [⟨"mk", true⟩, ⟨"Outer", false⟩]
   name := "A"
   reprNs := none
-  layers := [[⟨"p", .on, true⟩], [⟨"q", .call "Rq" true .post, false⟩, ⟨"h", .off, true⟩]]
+  layers := [[⟨"p", .on, true⟩], [⟨"q", .call "Rq" true .post false, false⟩, ⟨"h", .off, true⟩]]
   str := true
   plainStr := true
   ovr := true
@@ -91,6 +91,33 @@ def exCase : Case where
   threads := 2
   sched := [0, 1, 1, 0, 1, 1, 1]
 
+
+def exNode : Cls where
+  scopes := []
+  name := "Node"
+  reprNs := none
+  layers := [[⟨"a", .call "Ra" true .no true, true⟩, ⟨"b", .on, true⟩]]
+  str := false
+  plainStr := false
+  ovr := false
+
+def exChild : Cls where
+  scopes := []
+  name := "Child"
+  reprNs := none
+  layers := [[⟨"p", .call "Rp" true .pre false, true⟩]]
+  str := false
+  plainStr := false
+  ovr := false
+
+/-- `n = Node(a=Child(p=7), b=[n])`: `Child`'s callable raises, `Node.a`'s tolerant callable swallows it -/
+def exSwallow : Case where
+  heap := { classes := [exNode, exChild],
+            nodes := [.inst 0 [("a", 1), ("b", 2)], .inst 1 [("p", 3)], .list [0], .atom "7"] }
+  root := 0
+  warm := false
+  threads := 0
+  sched := []
 
 def exU : Cls where
   scopes := []
